@@ -559,7 +559,8 @@ def layer_fault_plan(rng, spec, p_su=0.15, p_td=0.15, p_nie=0.0):
         h = {}
         if rng.random() < p_su:
             h['setUp'] = 'raise:' + rng.choice(['ValueError', 'KeyError',
-                                                'NeedsArgs'])
+                                                'NeedsArgs',
+                                                'NotImplementedError'])
         r = rng.random()
         if r < p_td:
             h['tearDown'] = 'raise:' + rng.choice(['ValueError', 'OSError'])
